@@ -159,9 +159,19 @@ IsLower(n, d, e, c, q) == CmpVC(n, d, e, c, q) >= 0 /\ LET s == SuccM(c, q) IN C
 IsUpper(n, d, e, c, q) == CmpVC(n, d, e, c, q) <= 0 /\ c # << >> /\ LET p == PredM(c, q) IN CmpVC(n, d, e, p[1], p[2]) > 0
 \* sign of 2v - (c1*10^q1 + c2*10^q2)
 CmpMid(n, d, e, c1, q1, c2, q2) ==
-  LET lo == Min2(e, Min2(q1, q2))
-      s  == Add(MulPow10(c1, q1 - lo), MulPow10(c2, q2 - lo))
-  IN Cmp(MulPow10(MulSmall(n, 2), e - lo), IF d = One THEN s ELSE Mul(s, d))
+  \* quick decision on digit counts (also keeps astronomically distant exponents from being expanded)
+  LET dn == NumDigits(n)  dd == NumDigits(d)
+      hiV == dn - dd + 1 + e                                       \* v < 10^hiV
+      loV == dn - dd - 1 + e                                       \* v > 10^loV
+      hiS == Max2(NumDigits(c1) + q1, NumDigits(c2) + q2) + 1      \* c1*10^q1 + c2*10^q2 < 10^hiS
+      loS == IF c2 = << >> THEN NumDigits(c1) - 1 + q1
+             ELSE IF c1 = << >> THEN NumDigits(c2) - 1 + q2
+             ELSE Max2(NumDigits(c1) - 1 + q1, NumDigits(c2) - 1 + q2)   \* the sum is >= 10^loS
+  IN IF n # << >> /\ loV >= hiS THEN 1
+     ELSE IF (c1 # << >> \/ c2 # << >>) /\ hiV + 1 <= loS THEN -1
+     ELSE LET lo == Min2(e, Min2(q1, q2))
+              s  == Add(MulPow10(c1, q1 - lo), MulPow10(c2, q2 - lo))
+          IN Cmp(MulPow10(MulSmall(n, 2), e - lo), IF d = One THEN s ELSE Mul(s, d))
 OddMax(c, q) == c # << >> /\ IsOdd(NormMax(c, q)[1])
 
 IsRoundingFin(neg, n, d, e, c, q, m) ==
